@@ -1,6 +1,7 @@
 #![allow(dead_code)]
 mod base;
 mod c01;
+mod c20;
 mod c19;
 mod editor;
 mod c12;
@@ -25,6 +26,8 @@ fn main() {
     let rest = &args[2..].to_vec();
     match args[1].as_str() {
         "c01" => c01::run(rest),
+        "timekey" => { for alg in ["rsa","ed25519","ecdsa"] { let t=std::time::Instant::now(); let k=base::make_key(alg,0); let a=t.elapsed(); let t=std::time::Instant::now(); let _=tough::sign::parse_keypair(&k.private_file).is_ok(); let b=t.elapsed(); let t=std::time::Instant::now(); let s=k.sign(b"x"); let c=t.elapsed(); println!("{alg}: make {:?} parse_keypair {:?} sign {:?} {}", a,b,c,s.len()); } }
+        "c20" => c20::run(rest),
         "c19" => c19::run(rest),
         "c10" => editor::run(rest),
         "c17" => editor::run_update(rest),
